@@ -15,6 +15,9 @@ pub mod qcore;
 pub mod qcheck;
 pub mod c05;
 pub mod c06;
+pub mod pci_model;
+pub mod regdev;
+pub mod c10;
 pub mod replay;
 
 pub use engine::chooser::{choose, deviate};
